@@ -129,8 +129,14 @@ def run(ctx):
     fails, evals, samples = [], 0, []
     n = ctx.scale(45, 700)
     dist = {"locations": {}, "orders": 0, "spellings": {}}
-    for i in range(n):
-        sc = scenario_for(ctx.seed * 1000003 + i)
+    # rename detection where several vanished files have the content of one new file (a deleted file and a renamed one
+    # with equal bytes): which of them becomes the previous path must not depend on where the tree is mounted
+    dup = {"root": "root", "tree": {"a.txt": "same", "b.txt": "same", "c/d.txt": "same", "k.txt": "k"},
+           "ops": [{"op": "create", "at": "", "h": ["md5"], "now": "2026-03-01 12:00:01"}, {"op": "rm", "path": "a.txt"}, {"op": "rm", "path": "c/d.txt"}, {"op": "mv", "src": "b.txt", "dst": "renamed.txt"},
+                   {"op": "create", "at": "", "h": ["md5"], "now": "2026-03-01 12:00:02", "dr": True}, {"op": "create", "at": "", "h": ["sha1"], "now": "2026-03-01 12:00:03", "dr": True}], "c13_equal_only": True}
+    fixed = [dup] * 6
+    for i in range(n + len(fixed)):
+        sc = fixed[i] if i < len(fixed) else scenario_for(ctx.seed * 1000003 + i)
         base = rt.mktemp("c13_")
         try:
             loc1, loc2 = rnd.sample(LOCATIONS, 2)
@@ -158,13 +164,15 @@ def run(ctx):
             x = rt.run("verify", [dst], "2026-03-01 13:00:00")
             y = rt.run("verify", [ra], "2026-03-01 13:00:00")
             evals += 1
-            if (x.exit, x.exc) != (y.exit, y.exc) or (ea and ea[-1][1] == 0 and x.exit != 0):
+            # (with several vanished files of equal content -dr accepts the deleted ones as renamed too; whether that
+            # tree then verifies is not C13's question - the same answer at both places is)
+            if (x.exit, x.exc) != (y.exit, y.exc) or (ea and ea[-1][1] == 0 and x.exit != 0 and not sc.get("c13_equal_only")):
                 fails.append({"what": f"the sealed tree copied to {os.path.relpath(dst, base)!r} verifies with exit {x.exit} {x.exc or ''}, at its original place with {y.exit}", "replay": {"scenario": sc, "loc1": loc1, "copy": os.path.relpath(dst, base)}})
             if i < 2:
                 samples.append({"tree": sc["tree"], "ops": sc["ops"], "loc1": loc1, "loc2": loc2, "order_seed": order, "spell": spell})
         finally:
             shutil.rmtree(base, ignore_errors=True)
-    for w in ("D5a", "D5b"):
+    for w in ("D5a", "D5b", "D19"):
         for msg in witnesses.ALL[w]():
             fails.append({"what": f"regression of fixed defect {w}: {msg}", "replay": {"witness": w}})
     cov = {"evaluations": evals, "distinct_nontrivial": n,
